@@ -60,6 +60,22 @@ class Boom(Exception):
     pass
 
 
+class OpaqueKey:
+    """hashable, comparable by value - and its repr() fails (an object whose __repr__ touches a closed resource, an int too large to print)"""
+
+    def __init__(self, letter: str) -> None:
+        self.letter = letter
+
+    def __hash__(self) -> int:
+        return hash(self.letter)
+
+    def __eq__(self, other: object) -> bool:
+        return isinstance(other, OpaqueKey) and other.letter == self.letter
+
+    def __repr__(self) -> str:
+        raise RuntimeError("this object cannot be printed")
+
+
 def run_schedule(cfg: dict[str, Any], chooser: Chooser) -> dict[str, Any]:
     from haiway import cache, ctx
 
@@ -82,7 +98,7 @@ def run_schedule(cfg: dict[str, Any], chooser: Chooser) -> dict[str, Any]:
         @cache(**kw)
         async def fetch(key: str) -> Any:
             k = len(log["inv"])
-            rec = {"id": k, "key": key, "by": state["action"], "start": len(log["actions"]), "cancel_seen": False, "end": None, "result": None}
+            rec = {"id": k, "key": getattr(key, "letter", key), "by": state["action"], "start": len(log["actions"]), "cancel_seen": False, "end": None, "result": None}
             log["inv"].append(rec)
             fut = loop.create_future()
             inv_done.append(fut)
@@ -128,6 +144,14 @@ def run_schedule(cfg: dict[str, Any], chooser: Chooser) -> dict[str, Any]:
 
             gc.collect()
 
+        opaque: dict[str, Any] = {}
+
+        def arg_of(letter: str) -> Any:
+            if not cfg.get("opaque_keys"):
+                return letter
+            # a perfectly good key (hashable, equal to its like) that cannot be turned into text
+            return opaque.setdefault(letter, OpaqueKey(letter))
+
         async def caller(i: int) -> None:
             c = {"arrived": None, "result": None, "unfinished_at_arrival": None}
             log["callers"][i] = c
@@ -140,9 +164,9 @@ def run_schedule(cfg: dict[str, Any], chooser: Chooser) -> dict[str, Any]:
                 if i in scoped:
                     # the call is made from inside the caller's own scope (its task group is torn down when the caller is cancelled)
                     async with ctx.scope(f"caller{i}"):
-                        c["result"] = ("value", await holder["fn"](keys[i]))
+                        c["result"] = ("value", await holder["fn"](arg_of(keys[i])))
                 else:
-                    c["result"] = ("value", await holder["fn"](keys[i]))
+                    c["result"] = ("value", await holder["fn"](arg_of(keys[i])))
             except asyncio.CancelledError:
                 c["result"] = ("cancelled", None)
                 if cfg.get("drop"):
@@ -373,6 +397,10 @@ def configs(tier: str):  # noqa: ANN201
     for keys, cancels in ((["A"], [0]), (["A", "A"], [0]), (["A", "A"], [0, 1]), (["A", "B", "A"], [1])):
         for outcome in ("value", "raise"):
             yield {"keys": keys, "cancels": cancels, "expire": False, "limit": 0, "outcome": outcome}
+    # keys that cannot be printed
+    for keys, cancels in ((["A", "A"], []), (["A", "A", "B"], [1]), (["A", "B", "A"], [0])):
+        for outcome in ("value", "raise"):
+            yield {"keys": keys, "cancels": cancels, "expire": False, "limit": 2, "outcome": outcome, "opaque_keys": True}
     # the running invocation carries a stale cancellation count (it absorbed a request of its own): it is still THE invocation to share
     for keys, cancels in ((["A", "A"], []), (["A", "A", "A"], [1]), (["A", "B", "A"], [0]), (["A", "A"], [0])):
         for outcome in ("value", "raise"):
@@ -392,6 +420,8 @@ def random_config(rng: random.Random) -> dict[str, Any]:
         cfg["drop"] = True
     if rng.random() < 0.15:
         cfg["stale"] = True
+    if rng.random() < 0.15:
+        cfg["opaque_keys"] = True
     if rng.random() < 0.3:
         cfg["scoped"] = sorted(rng.sample(range(n), rng.randint(1, n)))
     if cfg["expire"]:
